@@ -784,4 +784,131 @@ def R5(ctx: Ctx) -> RuleResult:
     return r
 
 
-RULES = {'R1': R1, 'R2': R2, 'R3': R3, 'R4': R4, 'R5': R5}
+def R4b(ctx: Ctx) -> RuleResult:
+    r = RuleResult('R4b', 'public entry points delegate without shortcuts: split_and(p) = _split_and_expr(condition of p | p); get_conjuncts/get_disjuncts flatten exactly and/or')
+    ev = rewrite_eval(ctx)
+    x = Sym('x')
+    fi = ctx.model.func('hpl.rewrite', 'split_and', 'R4b')
+    outs = ev.run(fi, {fi.params()[0]: x})
+    for o in outs:
+        gs = norm_guards(o.guards)
+        pred = next((pol for t, pol in gs if isinstance(t, Attr) and t.base == x and t.name == 'is_predicate'), None)
+        desc = f'[{guards_repr(gs)[:80]}] {o.kind} {str(o.value)[:60]}'
+        if o.kind != 'return':
+            r.fail('split_and:path', f'entry point does not return: {desc}', fi.where)
+            continue
+        extra = [(t, pol) for t, pol in gs if not (isinstance(t, Attr) and t.base == x and t.name in ('is_predicate', 'is_expression'))]
+        v = o.value
+        want = Attr(x, 'condition') if pred else x
+        if extra:
+            r.fail('split_and:shortcut', f'split_and takes a shortcut under {guards_repr(tuple(extra))[:80]} and returns {str(v)[:50]}: vacuous predicates (the contradiction included) must go through the splitter, which raises ValueError for a false conjunct', fi.where)
+        elif _fname(v) == '_split_and_expr' and v.args == (want,):
+            r.ok(f'split_and[{"predicate" if pred else "expression"}] -> _split_and_expr({want!r})')
+        else:
+            r.fail('split_and:delegate', f'unexpected result {desc}', fi.where)
+    for name, kind in (('get_conjuncts', 'and'), ('get_disjuncts', 'or')):
+        fi = ctx.model.func('hpl.rewrite', name, 'R4b')
+        outs = ev.run(fi, {fi.params()[0]: x})
+        good = False
+        for o in outs:
+            for e in o.effects:
+                if isinstance(e, Loop):
+                    pushed = emitted = False
+                    for pg, flow, binds, effs in e.paths:
+                        is_k = any(pol and any(isinstance(y, Attr) and y.name == f'is_{kind}' for y in walk(t)) for t, pol in pg)
+                        not_k = any((not pol) and any(isinstance(y, Attr) and y.name == f'is_{kind}' for y in walk(t)) for t, pol in pg)
+                        apps = method_calls(list(effs), 'append')
+                        if is_k and len(apps) == 2 and {getattr(canon(a.args[0]), 'name', None) for a in apps} == {'operand1', 'operand2'}:
+                            pushed = True
+                        if not_k and len(apps) == 1:
+                            emitted = True
+                    good = good or (pushed and emitted)
+        (r.ok(f'{name}: flattens nested "{kind}" nodes, emits everything else') if good else r.fail(name, f'{name} does not push both operands of every "{kind}" node and emit the rest', fi.where))
+    return r
+
+
+def _leaves(t: Term, op: Term) -> Optional[List[Term]]:
+    """operands of nested HplBinaryOperator(op, ..) constructions / re-simplifications of them"""
+    if isinstance(t, New) and t.cls == 'HplBinaryOperator' and t.get('operator') == op:
+        a, b = _leaves(t.get('operand1'), op), _leaves(t.get('operand2'), op)
+        return None if a is None or b is None else a + b
+    if _fname(t) in ('_simplify_binary_operator', '_simplify') and len(t.args) == 1 and isinstance(t.args[0], New):
+        return _leaves(t.args[0], op)
+    return [t]
+
+
+def R6(ctx: Ctx) -> RuleResult:
+    r = RuleResult('R6', '_pre_simplify_binop: every rebuilt node keeps the operator (or its mirror with swapped operands) and exactly the multiset of operands of the input; re-association only under the associative flag, swapping only under the commutative flag / inverse table')
+    fi = ctx.model.func('hpl.rewrite', '_pre_simplify_binop', 'R6')
+    ev = rewrite_eval(ctx)
+    expr = Sym('expr', 'HplBinaryOperator')
+    outs = ev.run(fi, {'expr': expr})
+    op = Attr(expr, 'operator')
+    A = Call(FuncRef('hpl.rewrite:_simplify'), (Attr(expr, 'operand1'),))
+    B = Call(FuncRef('hpl.rewrite:_simplify'), (Attr(expr, 'operand2'),))
+    n = 0
+    for o in outs:
+        if o.kind != 'return':
+            r.fail('_pre_simplify_binop:path', f'path does not return: {str(o)[:80]}', fi.where)
+            continue
+        n += 1
+        v = o.value
+        gs = norm_guards(o.guards)
+        gtxt = guards_repr(gs)
+        if v == expr:
+            r.ok('unchanged')
+            continue
+        if isinstance(v, Call) and call_name(v) == 'but' and call_recv(v) == expr:
+            kw = dict(v.kwargs)
+            if kw == {'operand1': B, 'operand2': A}:
+                if any(pol and t == Attr(op, 'commutative') for t, pol in gs):
+                    r.ok('swap under the commutative flag')
+                else:
+                    r.fail('_pre_simplify_binop:swap', 'operands are swapped without the commutative flag being tested', f'{fi.module.relpath}:{o.lineno}')
+            else:
+                r.fail('_pre_simplify_binop:but', f'copy changes {sorted(kw)} to {str(kw)[:80]}', f'{fi.module.relpath}:{o.lineno}')
+            continue
+        if not (isinstance(v, New) and v.cls == 'HplBinaryOperator'):
+            r.fail('_pre_simplify_binop:result', f'returns {str(v)[:80]}', f'{fi.module.relpath}:{o.lineno}')
+            continue
+        vop = v.get('operator')
+        if vop != op:
+            # mirrored operator from the inverse table with swapped operands
+            inv_ok = isinstance(vop, Call) and call_name(vop) == 'get' and vop.args and vop.args[0] == op and 'INVERSE_OPERATORS' in repr(vop)
+            if inv_ok and v.get('operand1') == B and v.get('operand2') == A:
+                r.ok('mirror operator from INVERSE_OPERATORS with swapped operands')
+            else:
+                r.fail('_pre_simplify_binop:operator', f'rebuilds with operator {str(vop)[:60]} and operands ({str(v.get("operand1"))[:30]}, {str(v.get("operand2"))[:30]})', f'{fi.module.relpath}:{o.lineno}')
+            continue
+        got = _leaves(v, op)
+        # the input's operands, with nested same-operator nodes opened where the path established `x.operator == op`
+        opened = set()
+        for t, pol in gs:
+            for y in walk(t):
+                if isinstance(y, Op) and y.op == '==' and op in y.args:
+                    other = [a for a in y.args if a != op][0]
+                    if isinstance(other, Attr) and other.name == 'operator':
+                        opened.add(other.base)
+        opened_pos = {x_ for x_ in opened if any(pol and any(z == Op('==', (Attr(x_, 'operator'), op)) for z in walk(t)) for t, pol in gs)}
+        want: List[Term] = []
+        for side in (A, B):
+            if side in opened_pos and any(Attr(side, k) in (got or []) for k in ('operand1', 'operand2')):
+                want += [Attr(side, 'operand1'), Attr(side, 'operand2')]
+            else:
+                want.append(side)
+        reassoc = len(want) > 2
+        if got is None or sorted(map(repr, got)) != sorted(map(repr, want)):
+            r.fail('_pre_simplify_binop:operands', f'on path [...{gtxt[-90:]}] the rebuilt node has operands {[str(g)[-40:] for g in (got or [])]}, the input has {[str(w)[-40:] for w in want]}: an operand is dropped or duplicated', f'{fi.module.relpath}:{o.lineno}', [repr(w) for w in want], [repr(g) for g in (got or [])])
+            continue
+        if reassoc and not any(pol and t == Attr(op, 'associative') for t, pol in gs):
+            r.fail('_pre_simplify_binop:assoc', 're-association without the associative flag being tested', f'{fi.module.relpath}:{o.lineno}')
+            continue
+        if not reassoc and got != want:
+            r.fail('_pre_simplify_binop:order', f'operands reordered without a flag: {[str(g)[-30:] for g in got]}', f'{fi.module.relpath}:{o.lineno}')
+            continue
+        r.ok(f'{"re-association" if reassoc else "rebuild"}: {len(want)} operands preserved')
+    r.floor('paths', n, 10)
+    return r
+
+
+RULES = {'R1': R1, 'R2': R2, 'R3': R3, 'R4': R4, 'R4b': R4b, 'R5': R5, 'R6': R6}
